@@ -55,15 +55,26 @@ func (r *c09Runner) searchRes(seed int64) {
 	if _, _, ok := do("LOGIN u p", nil); !ok {
 		return
 	}
+	setup := func(line string, lit []byte) bool {
+		_, tg, ok := do(line, lit)
+		if ok && tg.Status != "OK" {
+			h.Fail("c09/setup", fmt.Sprintf("scenario set-up command %q answered %s", line, tg.Status), map[string]interface{}{"src": src, "lines": script, "transcript": cc.log})
+			return false
+		}
+		return ok
+	}
+	if !setup("CREATE INBOX", nil) {
+		return
+	}
 	n := 3 + rng.Intn(4)
 	for i := 0; i < n; i++ {
-		fl := []string{"", "(\\Seen)", "(\\Flagged)", "(\\Seen \\Flagged)"}[rng.Intn(4)]
+		fl := []string{"", "(\\Seen) ", "(\\Flagged) ", "(\\Seen \\Flagged) "}[rng.Intn(4)]
 		msg := []byte(fmt.Sprintf("Subject: m%d\r\n\r\nbody %d\r\n", i, i))
-		if _, tg, ok := do(fmt.Sprintf("APPEND INBOX %s {%d}", fl, len(msg)), msg); !ok || tg.Status != "OK" {
+		if !setup(fmt.Sprintf("APPEND INBOX %s{%d}", fl, len(msg)), msg) {
 			return
 		}
 	}
-	if _, _, ok := do("SELECT INBOX", nil); !ok {
+	if !setup("SELECT INBOX", nil) {
 		return
 	}
 	keys := []string{"ALL", "SEEN", "UNSEEN", "FLAGGED", "DELETED", "SEEN FLAGGED", "LARGER 100000", "SUBJECT m1", "SUBJECT nothing-has-this", "1:2", "UID 2:4", "KEYWORD $nope", "NOT ALL"}
@@ -77,7 +88,7 @@ func (r *c09Runner) searchRes(seed int64) {
 			return
 		}
 		want := seqs(un, "SEARCH")
-		if _, tg, ok := do("SEARCH RETURN (SAVE) "+key, nil); !ok || tg.Status != "OK" {
+		if !setup("SEARCH RETURN (SAVE) "+key, nil) {
 			return
 		}
 		// the saved result through FETCH, SEARCH and (sometimes) STORE
